@@ -211,10 +211,10 @@ pub struct ReplayFile {
 pub fn tier_budget(prop: &str, tier: &str) -> (usize, Duration) {
     let thorough = tier == "thorough";
     let n = match (prop, thorough) {
-        (_, false) => 12_000,
-        (_, true) => 300_000,
+        (_, false) => 40_000,
+        (_, true) => 1_000_000,
     };
-    (n, if thorough { Duration::from_secs(900) } else { Duration::from_secs(150) })
+    (n, if thorough { Duration::from_secs(1500) } else { Duration::from_secs(240) })
 }
 
 pub fn run_check(cfg: &Config) -> Outcome {
